@@ -291,7 +291,57 @@ def run_cli_plan(case, out_name):
     res["csvs"] = [[n, sinks[n].text()] for n in res["opens"] if n.endswith(".chromosome.list.csv")]
     ym = [n for n in sinks if n.endswith(".info.yaml")]
     res["yaml"] = sinks[ym[0]].text() if ym else None
+    # the assembly files themselves (AGP / TPF text as written), in the order they were opened
+    res["files"] = [[n, sinks[n].text()] for n in res["opens"]
+                    if n in sinks and n.lower().endswith((".agp", ".tpf")) and not n.endswith(".fa.agp")]
     return res
+
+
+def written_assemblies(obs):
+    """the assembly files of the CLI plan read back with the repository's own parsers:
+    [(file name, scaffolds as JSON)], or None when the plan wrote none (FASTA output name, early exit)"""
+    pl = obs.get("plan")
+    if not pl or pl.get("end") != 0 or not pl.get("files"):
+        return None
+    import io
+
+    from tola.assembly.parser import parse_agp, parse_tpf
+
+    out = []
+    for name, text in pl["files"]:
+        fn = parse_tpf if name.lower().endswith(".tpf") else parse_agp
+        try:
+            a = A.obj_to_assembly(fn(io.StringIO(text), name))
+        except Exception as e:
+            out.append((name, {"err": f"{type(e).__name__}: {e}"[:200]}))
+            continue
+        out.append((name, a["scaffolds"]))
+    return out
+
+
+def file_level(case, obs):
+    """what must hold of the FILES one run writes, whatever the in-memory assemblies look like: no file
+    is opened twice, every file parses back, scaffold names are unique within a file, and the files
+    together hold every input contig base exactly once"""
+    pl = obs.get("plan")
+    if not pl or pl.get("end") != 0:
+        return None
+    if len(set(pl["opens"])) != len(pl["opens"]):
+        dup = sorted({n for n in pl["opens"] if pl["opens"].count(n) > 1})
+        return f"output file(s) {dup} opened twice in one run (the second assembly overwrites the first)"
+    files = written_assemblies(obs)
+    if files is None:
+        return None
+    frs = []
+    for name, scs in files:
+        if isinstance(scs, dict):
+            return f"written file {name} cannot be parsed back: {scs['err']}"
+        frs += [(name, s["name"], r) for s in scs for r in s["rows"] if r[0] == "F"]
+    fake = {"asms": [{"key": n, "scaffolds": scs} for n, scs in files]}
+    w = conservation(case["input"], fake)
+    if w:
+        return "in the files written by pretext-to-asm: " + w
+    return None
 
 
 def run_pipeline(case):
